@@ -16,7 +16,12 @@ RMAX = 1.7976931348623157e308
 ST = {0: "converged", 1: "empty-state", 2: "max-iterations", 3: "failed-to-converge", 4: "direction-uphill",
       5: "bound-reached", 6: "non-finite-cost", 7: "non-finite-gradient", 8: "invalid-bounds", 10: "not-yet-converged"}
 DOCUMENTED_FINAL = {0, 2, 3, 4, 6, 7, 8}
-ULPS = 4
+# Float-regime reading of "on a face" / "rounding at a face".  A bound step computes
+#   x_new = fl(x + fl(fl(a*s)*d)),  a = fl(fl(nd*fl(b-x))/d),  s = fl(1/nd):
+# six roundings on the step (relative 2^-53 each) and one on the sum, so |x_new - b| <= 6e|b-x| + e|b| <= 13 e M with
+# e = 2^-53 and M the largest magnitude involved; since ulp(M) > e*M the distance is below 13 ulp(M).  Anything
+# farther from the face than that is NOT attributed to rounding.
+ULPS = 13
 OVERFLOW_REGIME = 1e100   # beyond this |x_i| the exact-arithmetic reading of the property is void (IEEE overflow to inf/NaN)
 
 
@@ -285,7 +290,7 @@ def oracle_c18(c, r, err=""):
             scale = max(abs(r["x"][i]), abs(c["lo"][i]) if finite_bound(c["lo"][i]) else 0.0, abs(c["up"][i]) if finite_bound(c["up"][i]) else 0.0)
         v = max(viol, retv)
         if c["bounded"] and v <= ULPS * ulp(scale) and c["algo"] in FIRST_ORDER and r.get("violcb", 0) != 0:
-            bad.append(("rounding-overshoot-at-face<=4ulp", "box left by %.3g (<= %d ulp of %.3g) at %s: rounding of x + (a*s)*d at a face reached by a line-search step"
+            bad.append(("rounding-overshoot-at-face<=13ulp", "box left by %.3g (<= %d ulp of %.3g) at %s: rounding of x + (a*s)*d at a face reached by a line-search step"
                         % (v, ULPS, scale, where)))
         elif c["algo"] == "L-BFGS" and ((viol >= retv and r.get("violx") != r.get("violx")) or
                                         (viol < retv and r["x"][reti] != r["x"][reti])):
